@@ -593,3 +593,113 @@ Proof.
   - apply decode_encode_started.
   - apply prefix_cut_short; assumption.
 Qed.
+
+(* ---------- before a connection exists: cold start ---------- *)
+
+(* AddrInUse is not an error: the client goes on to connect exactly as if its own server had started *)
+Lemma addr_in_use_proceeds later :
+  connect_or_start ARefused SAddrInUse later = connect_or_start ARefused (SOk true) later /\
+  (connect_with_retry later = true -> connect_or_start ARefused SAddrInUse later = None).
+Proof.
+  split; [reflexivity|]. intros H. unfold connect_or_start. rewrite H. reflexivity.
+Qed.
+
+Lemma nth_in_firstn {A} (x : A) : forall l n k, (n < k)%nat -> nth_error l n = Some x -> In x (firstn k l).
+Proof.
+  induction l as [|y l IH]; intros n k Hk Hn.
+  - destruct n; discriminate.
+  - destruct k as [|k]; [lia|]. destruct n as [|n]; simpl in *.
+    + left. congruence.
+    + right. apply IH with n; [lia|assumption].
+Qed.
+
+(* a server answers one of the (at most 11) connect attempts *)
+Lemma retry_finds_listener later n :
+  (n < retry_budget)%nat -> nth_error later n = Some AOk -> connect_with_retry later = true.
+Proof.
+  intros Hn Hnth. unfold connect_with_retry. apply existsb_exists. exists AOk. split; [|reflexivity].
+  apply nth_in_firstn with n; assumption.
+Qed.
+
+(* every way of not getting a connection is an sccache error (exit 2), every other start-up outcome proceeds *)
+Lemma connect_or_start_table first rep later :
+  connect_or_start first rep later = None <->
+  first = AOk \/
+  (first = ARefused /\ (rep = SOk true \/ rep = SAddrInUse) /\ connect_with_retry later = true).
+Proof.
+  unfold connect_or_start. split.
+  - destruct first; [auto| |discriminate].
+    destruct rep as [[|]| | | |]; try discriminate;
+      destruct (connect_with_retry later) eqn:E; try discriminate; intros _; right; auto.
+  - intros [->|(-> & [->| ->] & ->)]; reflexivity.
+Qed.
+
+(* no server running, k clients at once: whoever's server wins the port, a client whose spawned server reports
+   Ok or AddrInUse and who then reaches the listener gets its result exactly as with a running server *)
+Lemma cold_start_delivers opq ig rep later f tail e :
+  rep = SOk true \/ rep = SAddrInUse ->
+  connect_with_retry later = true ->
+  wf_finished f -> blen (encode_finished f) < 4294967296 ->
+  compile_process opq ig ARefused rep later
+    (frame (encode_compile_response CompileStarted) ++ frame (encode_finished f) ++ tail) e
+  = PCompile (ReturnFinished f).
+Proof.
+  intros Hrep Hretry Hwf Hlen. unfold compile_process.
+  replace (connect_or_start ARefused rep later) with (@None start_error).
+  - f_equal. apply exchange_on_the_wire; assumption.
+  - symmetry. apply connect_or_start_table. right. auto.
+Qed.
+
+Lemma process_never_false_success opq ig first rep later bytes e local :
+  process_exit (compile_process opq ig first rep later bytes e) local = 0 ->
+  connect_or_start first rep later = None /\
+  ((exists p1 r1 p2 r2 f,
+      framed bytes p1 r1 /\ decode_response opq p1 = Some (RCompile CompileStarted) /\
+      framed r1 p2 r2 /\ decode_response opq p2 = Some (RFinished f) /\
+      client opq ig bytes e = ReturnFinished f /\ finished_exit f = 0)
+   \/ (exists w, client opq ig bytes e = RunLocally w /\ local = 0)).
+Proof.
+  unfold compile_process. destruct (connect_or_start first rep later); simpl; [discriminate|].
+  intros H. split; [reflexivity|]. exact (never_false_success opq ig bytes e local H).
+Qed.
+
+(* ---------- the shared compiler map ---------- *)
+
+(* whatever other requests (from any connection) came before — in particular requests whose probe failed and
+   left `None` entries — a request whose own probe succeeds is served *)
+Lemma failed_probe_does_not_poison m q :
+  q_probe_ok q = true -> fst (compiler_info m q) = true.
+Proof.
+  intros H. unfold compiler_info. rewrite H.
+  destruct (cm_get m (q_path q)) as [[mt|]|]; simpl; try reflexivity.
+  destruct (mt =? q_mtime q); reflexivity.
+Qed.
+
+Lemma serve_all_app m qs1 qs2 :
+  fst (serve_all m (qs1 ++ qs2)) = fst (serve_all m qs1) ++ fst (serve_all (snd (serve_all m qs1)) qs2).
+Proof.
+  revert m. induction qs1 as [|q qs1 IH]; intros m; simpl.
+  - destruct (serve_all m qs2); reflexivity.
+  - destruct (compiler_info m q) as [a m1]. specialize (IH m1).
+    destruct (serve_all m1 (qs1 ++ qs2)) as [x y]. destruct (serve_all m1 qs1) as [x1 y1].
+    simpl in *. rewrite IH. reflexivity.
+Qed.
+
+Lemma served_after_any_history before q after :
+  q_probe_ok q = true ->
+  nth_error (fst (serve_all [] (before ++ q :: after))) (length before) = Some true.
+Proof.
+  intros H. rewrite serve_all_app.
+  rewrite nth_error_app2 by (clear; revert before; generalize (@nil (list N * option N));
+    intros m before; revert m; induction before as [|b bs IH]; intros m; simpl; [lia|];
+    destruct (compiler_info m b) as [a m1]; specialize (IH m1);
+    destruct (serve_all m1 bs); simpl in *; lia).
+  assert (Hlen : forall m, length (fst (serve_all m before)) = length before).
+  { induction before as [|b bs IH]; intros m; simpl; [reflexivity|].
+    destruct (compiler_info m b) as [a m1]. specialize (IH m1).
+    destruct (serve_all m1 bs); simpl in *. lia. }
+  rewrite Hlen, PeanoNat.Nat.sub_diag. simpl.
+  pose proof (failed_probe_does_not_poison (snd (serve_all [] before)) q H) as Hq.
+  destruct (compiler_info (snd (serve_all [] before)) q) as [a m1]. simpl in Hq. subst a.
+  destruct (serve_all m1 after). reflexivity.
+Qed.
